@@ -136,3 +136,24 @@ def ensure_repo_on_path():
     p = repo_pythonpath()
     if p not in sys.path:
         sys.path.insert(0, p)
+
+
+def validate_robust(validate_fn, traces, ctx=None, depth=0):
+    """Run validate_fn(traces) -> (verdicts, stats).  If TLC cannot evaluate the
+    batch (MachineryError), bisect to isolate the traces it chokes on; those are
+    returned as `unjudged` so that the rest of the batch is still judged."""
+    from . import tlc
+    try:
+        v, st = validate_fn(traces)
+        return v, st, []
+    except tlc.MachineryError as e:
+        if len(traces) == 1:
+            if ctx:
+                ctx.log('UNJUDGED trace %s: %s' % (traces[0].get('tid'), str(e)[-300:].replace('\n', ' ')))
+            return [], {'cmd': 'bisect'}, [traces[0]]
+        if depth > 12:
+            raise
+        mid = len(traces) // 2
+        v1, s1, u1 = validate_robust(validate_fn, traces[:mid], ctx, depth + 1)
+        v2, s2, u2 = validate_robust(validate_fn, traces[mid:], ctx, depth + 1)
+        return v1 + v2, s1 if 'cmd' in s1 else s2, u1 + u2
